@@ -58,7 +58,16 @@ func buildMW(specs []MWSpec, point string, trace *mwTrace, rewriteArgs ...bool) 
 		rewrite := s.Rewrite
 		out = append(out, func(next frugal.InvocationHandler) frugal.InvocationHandler {
 			return func(service reflect.Value, method reflect.Method, args frugal.Arguments) frugal.Results {
-				trace.add("enter:" + name)
+				// calls of the concurrent phase carry a request header "who"
+				tag := ""
+				if len(args) > 0 {
+					if ctx, ok := args[0].(frugal.FContext); ok {
+						if w, ok := ctx.RequestHeader("who"); ok {
+							tag = "@" + w
+						}
+					}
+				}
+				trace.add("enter:" + name + tag)
 				if rewrite && len(args) > 0 {
 					if ctx, ok := args[0].(frugal.FContext); ok {
 						prev, _ := ctx.RequestHeader("mw-path")
@@ -72,7 +81,7 @@ func buildMW(specs []MWSpec, point string, trace *mwTrace, rewriteArgs ...bool) 
 					}
 				}
 				res := next(service, method, args)
-				trace.add("exit:" + name)
+				trace.add("exit:" + name + tag)
 				if rewrite {
 					if len(res) == 2 && res[1] == nil {
 						if s, ok := res[0].(string); ok {
@@ -102,6 +111,9 @@ type C16Case struct {
 	Added     []MWSpec `json:"added"` // FProcessor.AddMiddleware, in order
 	Args      []*Node  `json:"args"`
 	Ret       *Node    `json:"ret,omitempty"`
+	// Conc > 0: after the single call, that many goroutines invoke the same method at once,
+	// each with its own FContext (request header "who") and its own first string argument
+	Conc int `json:"conc,omitempty"`
 }
 
 func GenC16(t *rapid.T) C16Case {
@@ -137,6 +149,9 @@ func GenC16(t *rapid.T) C16Case {
 	if mb.Method.Ret != nil {
 		c.Ret = GenTree(t, p, mb.Method.Ret, 1)
 	}
+	if rapid.IntRange(0, 2).Draw(t, "conc?") == 0 {
+		c.Conc = rapid.IntRange(2, 8).Draw(t, "conc")
+	}
 	return c
 }
 
@@ -159,10 +174,13 @@ func ClassifyC16(c C16Case) ev.Class {
 	if rewriting > 0 {
 		labels = append(labels, "rewriting")
 	}
+	if c.Conc > 0 {
+		labels = append(labels, "concurrent-calls-of-one-method")
+	}
 	if mb.Owner != sb.IDLName {
 		labels = append(labels, "inherited-method")
 	}
-	key := fmt.Sprintf("%s|%s|%s|%v|%v|%v|%v", Programs[sb.Prog].Hash, c.Name, c.Transport, c.Provider, c.Client, c.Processor, c.Added)
+	key := fmt.Sprintf("%s|%s|%s|%v|%v|%v|%v|%d", Programs[sb.Prog].Hash, c.Name, c.Transport, c.Provider, c.Client, c.Processor, c.Added, c.Conc)
 	for _, a := range c.Args {
 		key += "|" + a.Canon()
 	}
@@ -359,6 +377,104 @@ func checkC16Inner(c C16Case) *ev.Failure {
 	if c.Ret != nil && len(out) == 2 && out[0].Kind() == reflect.String && out[0].Type() == reflect.TypeOf("") {
 		if got, w := out[0].String(), string(c.Ret.S)+wantBack; got != w {
 			return ev.Failf("middleware-rewrite-results", "%s: the caller got %q, expected %q%s", what, got, w, ctxText())
+		}
+	}
+	if c.Conc == 0 {
+		return nil
+	}
+	// ---- concurrent phase: Conc goroutines call the same method at once
+	baseEvents, baseCalls := len(trace.snapshot()), rec.count()
+	type res struct {
+		err  string
+		back string
+		ret  string
+	}
+	results := make([]res, c.Conc)
+	var wg sync.WaitGroup
+	start := make(chan struct{})
+	for k := 0; k < c.Conc; k++ {
+		wg.Add(1)
+		go func(k int) {
+			defer wg.Done()
+			kctx := frugal.NewFContext("").SetTimeout(20 * time.Second)
+			kctx.AddRequestHeader("who", fmt.Sprint(k))
+			kin := append([]reflect.Value{reflect.ValueOf(kctx)}, in[1:]...)
+			if firstString >= 0 {
+				kin[firstString+1] = reflect.ValueOf(string(c.Args[firstString].S) + "#" + fmt.Sprint(k))
+			}
+			<-start
+			defer func() {
+				if r := recover(); r != nil {
+					results[k].err = fmt.Sprintf("panic: %v", r)
+				}
+			}()
+			o := cm.Call(kin)
+			if e := o[len(o)-1]; !e.IsNil() {
+				results[k].err = fmt.Sprint(e.Interface())
+			}
+			results[k].back, _ = kctx.ResponseHeader("mw-back")
+			if len(o) == 2 && o[0].Kind() == reflect.String && o[0].Type() == reflect.TypeOf("") {
+				results[k].ret = o[0].String()
+			}
+		}(k)
+	}
+	close(start)
+	wg.Wait()
+	for k, r := range results {
+		if r.err != "" {
+			return ev.Failf("call-failed:concurrent", "%s: concurrent call %d of %d failed: %s%s", what, k, c.Conc, r.err, ctxText())
+		}
+	}
+	counts := map[string]int{}
+	for _, e := range trace.snapshot()[baseEvents:] {
+		counts[e]++
+	}
+	for k := 0; k < c.Conc; k++ {
+		for _, n := range append(append([]string{}, clientChain...), serverChain...) {
+			for _, dir := range []string{"enter:", "exit:"} {
+				e := fmt.Sprintf("%s%s@%d", dir, n, k)
+				if counts[e] != 1 {
+					return ev.Failf("middleware-count:concurrent", "%s: with %d concurrent calls, event %s was seen %d times (every middleware must see every call exactly once, with that call's FContext)\n   events: %v%s", what, c.Conc, e, counts[e], counts, ctxText())
+				}
+				delete(counts, e)
+			}
+		}
+	}
+	if counts["handler"] != c.Conc || len(counts) != 1 {
+		return ev.Failf("middleware-count:concurrent", "%s: with %d concurrent calls, unexpected events remain: %v%s", what, c.Conc, counts, ctxText())
+	}
+	rec.mu.Lock()
+	calls := append([]recordedCall{}, rec.calls[baseCalls:]...)
+	rec.mu.Unlock()
+	seen := map[string]int{}
+	for _, call := range calls {
+		hctx, ok := call.args[0].(frugal.FContext)
+		if !ok {
+			continue
+		}
+		who, _ := hctx.RequestHeader("who")
+		seen[who]++
+		if pth, _ := hctx.RequestHeader("mw-path"); pth != wantPath {
+			return ev.Failf("middleware-rewrite-args:concurrent", "%s: the handler of concurrent call %s saw mw-path=%q, expected %q%s", what, who, pth, wantPath, ctxText())
+		}
+		if firstString >= 0 {
+			w := string(c.Args[firstString].S) + "#" + who + wantPath
+			if got, ok := call.args[firstString+1].(string); !ok || got != w {
+				return ev.Failf("handler-saw-other-calls-arguments", "%s: with %d concurrent calls, the handler invoked with the FContext of call %s saw argument %d = %q, expected %q%s", what, c.Conc, who, firstString, call.args[firstString+1], w, ctxText())
+			}
+		}
+	}
+	for k := 0; k < c.Conc; k++ {
+		if seen[fmt.Sprint(k)] != 1 {
+			return ev.Failf("handler-saw-other-calls-arguments", "%s: with %d concurrent calls, the handler saw the FContext of call %d %d times (per call: %v)%s", what, c.Conc, k, seen[fmt.Sprint(k)], seen, ctxText())
+		}
+		if results[k].back != wantBack {
+			return ev.Failf("middleware-rewrite-results:concurrent", "%s: concurrent caller %d saw mw-back=%q, expected %q%s", what, k, results[k].back, wantBack, ctxText())
+		}
+		if c.Ret != nil && mt.NumOut() == 2 && mt.Out(0) == reflect.TypeOf("") {
+			if w := string(c.Ret.S) + wantBack; results[k].ret != w {
+				return ev.Failf("middleware-rewrite-results:concurrent", "%s: concurrent caller %d got %q, expected %q%s", what, k, results[k].ret, w, ctxText())
+			}
 		}
 	}
 	return nil
